@@ -156,8 +156,7 @@ Definition search_simple (i : index) (a : attr) (path : list part) (t : test) : 
   | ATime =>
     match t with
     | TCmp c (VTime rhs) => search_time_cmp i c rhs       (* looks at operator and rhs only *)
-    | TCmp _ _ => None                                    (* rhs.timestamp() on a non-datetime *)
-    | _ => search_scan true path t
+    | _ => search_scan true path t                        (* anything that carries no datetime to bisect on is a test like any other *)
              (map (fun tp => (VTime (fst tp), [snd tp])) (combine (ix_ts i) (ix_pos i))) []
     end
   | AMeas => search_scan false path t
